@@ -15,14 +15,20 @@ CFG = {
                   "(every strict prefix of the inflated stream rejected; gzip as a hypothesis), PLY binary and ASCII "
                   "(threshold theorem: below the end of the promised data every cut is EOF, at or above it the identical "
                   "mesh; vertex-line token cuts; header line cuts), PTS (token level), no-placeholder corollaries and "
-                  "record-read cost bounds (STL, .splat); tied to the code by decoding EVERY strict prefix of generated "
-                  "files with the real decoders in child processes (deadline, memory cap), each decode repeated with seven kinds of io.Reader (in-memory with Len, opaque, one-byte, half, data-with-EOF; the result must not depend on it), and judging each observation "
+                  "record-read cost bounds (STL, .splat); round 4: the PLY threshold theorems for ANY MeshReader configuration, "
+                  "block-wise decoding of the binary vertex element (any block sizes accept exactly what the record loop "
+                  "accepts; the zero-padding variant refuted), spz.ReadHeader, ASCII bodies at BYTE level (a cut at a token "
+                  "boundary of the text is the token prefix: bytes -> lines -> tokens -> mesh), the PTS lone-number-is-a-count "
+                  "variant refuted; tied to the code by decoding EVERY strict prefix of generated "
+                  "files with the real decoders in child processes (deadline, memory cap), each decode repeated with eight kinds of io.Reader (in-memory with Len, opaque, one-byte, half, data-with-EOF, and a file on disk through the path-taking Load entry points; the result must not depend on it), plus files past the readers' internal block thresholds (4096 / 8192 / 32768 / 65536 records, cuts sampled around block boundaries) and the other readers of the anchored files (ply.MeshReader with a caller-made configuration, spz.ReadHeader), and judging each observation "
                   "with a direct oracle (prop_ok) and against the models' decode of the same prefix (corr_ok)",
     "level_note": "Trusted: Coq kernel + vm_compute; compress/gzip (prefix-monotone inflate: hypothesis of prefix_spz, "
                   "also used by the harness to compute how much plaintext a compressed prefix yields) and strconv are "
                   "outside the model; 'time proportional to the input' is proved as a bound on record reads of the "
-                  "models and observed on the Go runtime (deadline 2 s + 1 us/byte per decode, RLIMIT_AS 3 GiB), not "
-                  "proved about the Go runtime",
+                  "models and observed on the Go runtime (budget: CPU time of the decoding process, 1 s + 1 us per byte and "
+                  "reader kind, so that the load of the machine cannot cause an alarm; wall clock only as a 30 s inactivity "
+                  "limit followed by one retry alone; RLIMIT_AS 3 GiB), not proved about the Go runtime; big files and the "
+                  "auxiliary readers are judged by the direct oracle only (no model view of a megabyte of bytes)",
     "technique": "Coq proof (stream-parser combinators with a threshold invariant; induction over records/lines) + "
                  "exhaustive cut-point correspondence in capped child processes",
     "design_ref": "DESIGN.md §4 C14",
@@ -30,10 +36,13 @@ CFG = {
     "rule": "valid files of 8 kinds in rotation: STL; PLY ascii/le/be through polyform's writer (point clouds, "
             "triangle meshes, +-normals, +-uchar colours, +-per-face texcoord lists, +-extra scalar); PLY through an "
             "independent encoder (float/double positions, uchar rgb/rgba, int column, tri+quad faces, uchar/uint list "
-            "counts, int/uint indices, float/double texcoords, all three encodings; 1/3 of the ASCII ones with surplus trailing tokens on every line); PTS 3/4/7 columns; .splat; SPZ "
+            "counts, int/uint indices, float/double texcoords, per-vertex s/t, bare-integer tokens incl. 0, all three encodings; 1/3 of the ASCII ones with surplus trailing tokens on every line); PTS 3/4/7 columns with count-like first tokens (0, 1, points still owed) on at least one line of every file; .splat; SPZ "
             "v1/v2 x SH degree 0-3 x gzip stored/default/fast via an independent encoder.  EVERY byte cut for binary "
             "files and for PLY headers, every token boundary for ASCII bodies (stride sampling only above 1200 / 8192 "
-            "cuts, last 64 always kept); plus a fixed 'hostile count' stream (short file announcing 2^31 records) "
+            "cuts, last 64 always kept); every second PLY file again through a caller-configured ply.MeshReader, every SPZ "
+            "file again through spz.ReadHeader; 8 big files per quick run (binary PLY cloud of 70001 vertices, PLY mesh / "
+            "STL / .splat / SPZ+SH / PTS of 9001 records, ASCII PLY 4097, PTS 70001; thorough: sizes 4097..70001 for every "
+            "format), 40-150 cuts each around record-block and byte-block boundaries; plus a fixed 'hostile count' stream (short file announcing 2^31 records) "
             "reported in extra and judged once known_findings.json lists c14:alloc-by-declared-count; distinct by "
             "file bytes; non-trivial = more than 20 cuts",
     "trusted": ["compress/gzip (SPZ) and strconv (ASCII numbers) are outside the model",
